@@ -53,7 +53,7 @@ P = {
  "C12": ("proof", "4.C12", "Coq proof over executable model + differential correspondence", "Greedy unfolding of Count and the exact split of Cut proved for Spec; Count's general loop and Cut (both package shapes) proved to compute them around the proved model of Index itself (resuming after the matched text of the haystack, whose width differs from the needle's); Count's single-ASCII-byte path (the accelerated byte count's scalar definition plus the occurrences of U+212A / U+017F for K k S s) is proved to count the code points in the byte's folding orbit, so C12_count_full_refines holds for EVERY needle."),
  "C13": ("proof", "4.C13", "Coq proof about the amd64 assembly itself (instruction lists regenerated from the .s files by tools/asm2prog.py on every run, executed by the machine model X86.v) and about every pure-Go kernel body, for every length / address / alignment / surrounding memory, with and without AVX2; + guard-page sweep on the real CPU + machine model validated against the real kernels",
          "Proved (Properties/C13.v): IndexNonASCII/IndexByteNonASCII, IndexByte/IndexByteString (wrappers' letter test and both bodies) and Count/CountString (POPCNT hand-over, letter test, both counting bodies) of the go1.22+ file set return index_non_ascii / k_index_byte / k_count, the scalar definitions, started from arbitrary register contents; Done also means every load stayed inside the 4 KiB pages holding a byte of the argument, the only store was the result slot, no address or counter wrapped, no jump read an undefined flag. The portable, no-POPCNT and standard-library based Go bodies are proved equal to the same definitions. "
-         "Modelled, not verified: the x86 instruction semantics of X86.v (validated on every run: the extracted interpreter is run on the translated programs at 6 placements x 3 surroundings x 4 AVX2/POPCNT combinations x 2 entry points against what the real kernels returned), the translator tools/asm2prog.py, arm64 assembly. The pre-1.22 file set is covered by a general theorem (erasing PCALIGN no-ops preserves every run's result, X86Erase.v) plus the computed check that the pre-1.22 programs are the go1.22 programs without their no-ops; what GOAMD64=v3 assembles is covered under C14. Search for a failing input when a proof breaks: the guard-page sweep (lengths 0..200 + page-crossing lengths quick / 0..4352 thorough, all alignments, flush against PROT_NONE pages on both sides, needle-filled surroundings). arm64: no processor or emulator here; the two arm64 byte-count files are interpreted from their text by tools/arm64sim.py over lengths x all 32 alignments x contents x needles against the definition (a bounded search on a hand-written interpreter, not a proof; found D10), the other arm64 files are not covered."),
+         "Modelled, not verified: the x86 instruction semantics of X86.v (validated on every run: the extracted interpreter is run on the translated programs at 6 placements x 3 surroundings x 4 AVX2/POPCNT combinations x 2 entry points against what the real kernels returned), the translator tools/asm2prog.py, arm64 assembly. The pre-1.22 file set is covered by a general theorem (erasing PCALIGN no-ops preserves every run's result, X86Erase.v) plus the computed check that the pre-1.22 programs are the go1.22 programs without their no-ops; what GOAMD64=v3 assembles is covered under C14. Search for a failing input when a proof breaks: the guard-page sweep (lengths 0..200 + page-crossing lengths quick / 0..4352 thorough, all alignments, flush against PROT_NONE pages on both sides, needle-filled surroundings). arm64: no processor or emulator here; the four arm64 assembly files are interpreted from their text by tools/arm64sim.py over lengths x all 32 alignments x contents x needles x surrounding bytes, both entry points, against the definitions (a bounded search on a hand-written interpreter, not a proof; found D10)."),
  "C14": ("proof", "4.C14", "Coq proof that every kernel back end computes the same function (the assembly with its AVX2 path, with its SSE path, the GOAMD64=v3 preprocessing of the assembly, the no-POPCNT Go fallback, the portable and the standard-library based Go bodies all return the scalar definitions) and that the search models above the kernels do not depend on the back-end parameters; + the correspondence corpus executed under 6 configurations (8 where a second Go toolchain is installed: the same corpus built with go1.26.8, with and without AVX2) and compared case by case",
          "Proved (Properties/C14.v): C14_kernel_backends_agree — for IndexNonASCII, IndexByteString and CountString the run of the default assembly with AVX2, without AVX2, of the v3 preprocessing (proofs derived by tools/mkv3.py from the default ones and re-checked) and the Go bodies yield one value, at any placement; C14_search_models_configuration_free — the models of Index, IndexRune, IndexByte, IndexAny, LastIndexAny return the same result under every NativeIndex / cut-over / threshold setting (each refines the same Spec); C14_native_needles_within_runtime_contract / C14_index_at_the_source_constants — the largest needle Index hands to the runtime's native Index (read from the source on every run) does not exceed the least internal/bytealg.MaxLen of the toolchain (read from GOROOT on every run: 31, amd64 without AVX2), so the model's contract-checked native call never crashes and Index at the source's constants is the Spec on every supported CPU. "
          "C14_kernels_execute_no_instruction_of_an_absent_feature (X86Isa.v, X86IsaInst.v): on the machine that faults on a 256-bit VEX instruction while HasAVX2 is false and on POPCNT while HasPOPCNT is false, the translated kernels (go1.22+ and pre-1.22 files, every exported entry) run exactly as on the permissive machine, for all inputs, flags and step counts - proved by an abstract interpretation of the instruction lists whose closure sets are checked by evaluation; so the kernel theorems hold on a processor without AVX2 (C14_*_on_a_processor_without_avx2). "
